@@ -224,10 +224,66 @@ def ast_frame_scan(cphotang):
     return sorted(reach), hits
 
 
+def regen():
+    """source tie: Gen/Src/C10.lean regenerated from CphotAng.__call__ / run of the working tree (harness/calltrans.py)"""
+    import calltrans
+    return calltrans.regen()
+
+
+def source_tie(ctx: Ctx, mods):
+    """the reader's account of the source (harness/calltrans.py) against what the real call does: the partition size the
+    call requests from dask, the positional order in which the per-event values reach `run`, the signature of `run`, the
+    order of the returned pair.  A difference is a broken tie (ctx.disagree), not by itself a violation."""
+    import calltrans
+    dask, db, Callback, cphotang, xs = mods
+    try:
+        d = calltrans.read()
+    except Exception as e:  # noqa: BLE001 - regeneration has already reported it as a broken obligation
+        ctx.disagree("source_tie.call", {"error": f"{type(e).__name__}: {str(e)[:200]}"})
+        return
+    n = 7
+    kern = cphotang.CphotAng(np.float64(525.0))
+    seen = []
+
+    def spy(*a, **k):
+        seen.append((a, k))
+        return np.float64(len(seen)), np.float64(-len(seen))
+
+    kern.run = spy     # instance attribute shadows the method: the call's own lambda reaches it through self.run
+    cols = [np.arange(n, dtype=np.float64) + 100.0 * (j + 1) for j in range(len(d["zipped"]))]
+    token = object()
+    prec = []
+    try:
+        with partition_override(db, None, prec), dask.config.set(scheduler="synchronous"), quiet():
+            got = kern(*cols, token)
+    except Exception as e:  # noqa: BLE001
+        ctx.disagree("source_tie.call", {"error": f"spy call raised {type(e).__name__}: {str(e)[:200]}"})
+        return
+    facts = {
+        "partition_size_requested": (prec[0]["requested"] if prec else None, d["partitionSize"]),
+        "run_params": (list(inspect.signature(cphotang.CphotAng.run).parameters)[1:], d["runParams"]),
+        "call_params": (list(inspect.signature(cphotang.CphotAng.__call__).parameters)[1:], d["callParams"]),
+        "events_seen": (len(seen), n),
+        "positional_order": ([[float(v) for v in a[:len(cols)]] for a, _ in sorted(seen, key=lambda t: float(t[0][0]))],
+                             [[float(c[i]) for c in cols] for i in range(n)]),
+        "trailing_argument_is_cloudf": (all(len(a) == len(cols) + 1 and a[-1] is token and not k for a, k in seen), True),
+        "returned_pair_order": ([sorted(abs(float(v)) for v in np.asarray(g)) for g in got] if isinstance(got, tuple) and len(got) == 2 else None,
+                                [[float(i + 1) for i in range(n)]] * 2),
+        "returned_signs": ([bool(np.all(np.asarray(got[0]) > 0)), bool(np.all(np.asarray(got[1]) < 0))] if isinstance(got, tuple) and len(got) == 2 else None,
+                           [True, True]),
+    }
+    bad = {k: {"real": a, "reader": b} for k, (a, b) in facts.items() if a != b}
+    ctx.count("source_tie.facts_checked", len(facts))
+    ctx.extra.setdefault("source_tie", {})["call"] = {"facts_checked": sorted(facts), "differences": bad}
+    if bad:
+        ctx.disagree("source_tie.call", bad)
+
+
 def run(ctx: Ctx):
     mods = _mods()
     dask, db, Callback, cphotang, xs = mods
     rng = ctx.rng
+    source_tie(ctx, mods)
     N = 250
     ev = make_events(rng, N)
     ev0 = [a.copy() for a in ev]
